@@ -61,6 +61,7 @@ fn common(
     };
 
     let n = operands.len();
+    let mut successes = 0_usize;
 
     for i in 0..n {
         let mut coord = operands.get_coord(i);
@@ -75,9 +76,14 @@ fn common(
             coord[2] -= par[2];
         }
         operands.set_coord(i, &coord);
+        // The formulae are singular where M + h or (N + h) cos(phi) vanish: such tuples
+        // (and tuples with NaN input) come out as NaN, and must not be counted as successes
+        if !(coord[0].is_nan() || coord[1].is_nan() || coord[2].is_nan()) {
+            successes += 1;
+        }
     }
 
-    n
+    successes
 }
 
 // ----- F O R W A R D -----------------------------------------------------------------
